@@ -8,11 +8,21 @@ use crate::{
     node::*,
 };
 use koto_lexer::{LexedToken, Lexer, Span, StringType, Token};
+#[cfg(not(koto_verif))]
 use std::{
     borrow::Cow,
     collections::HashSet,
     iter::Peekable,
     str::{Chars, FromStr},
+};
+#[cfg(koto_verif)]
+use {
+    crate::verif::HashSet,
+    std::{
+        borrow::Cow,
+        iter::Peekable,
+        str::{Chars, FromStr},
+    },
 };
 
 // Contains info about the current frame, representing either the module's top level or a function
